@@ -78,6 +78,10 @@ static void b_setopt_sec(unsigned n)
 		CHECK("C01", r == NULL && g_diag >= 1, "unique titles: a repeated title is refused with a diagnostic");
 		CHECK("C01,C10", o.nvalues == n && g_free_calls == 0 && g_dup_calls == 0, "unique titles: a refused title leaves the sections untouched");
 		for (unsigned i = 0; i < 3; i++) if (i < n) CHECK("C01,C10", o.values[i] == slot[i] && o.values[i]->section == sec[i], "unique titles: a refused title leaves every instance in place");
+#ifdef CFGV_NO_ALLOC_FAILURE
+	} else if (r == NULL) {
+		CHECK("C01,C09", 0, "opening a section that nothing forbids succeeds (no allocation failure in this unit)");
+#endif
 	} else if (r != NULL) {
 		_Bool appended = (n == 0 || multi) && match < 0;
 		_Bool rebuilt = appended || multi;
